@@ -270,7 +270,14 @@ def check_c09(tier):
     for n, rep in enumerate(reps):
         for one in (False, True):
             cid = len(cases)
-            case, rendered, jl = build_case(cid, rep, one, log=(n % (3 if tier == "quick" else 1) == 0))
+            # after quiescence every file is re-analysed ONCE MORE, sequentially, with the same text: the reverse usage index
+            # must again mirror the per-file usages (a cleanup that relies on how concurrent pushes happened to interleave
+            # leaves stale entries behind)
+            again = []
+            for j in (rep["sc"]["job"] if isinstance(rep["sc"]["job"], list) else [rep["sc"]["job"][k] for k in sorted(rep["sc"]["job"], key=int)]):
+                again.append({"op": "analyze", "path": UNI.paths[j["f"]], "text": R.render_checked(UNI, j["f"], j["m"]).text})
+            again.append({"op": "snapshot", "raw": True})
+            case, rendered, jl = build_case(cid, rep, one, log=(n % (3 if tier == "quick" else 1) == 0), extra_post=again)
             info[cid] = (rep, rendered, one, "tlc")
             cases.append(case)
         # one additional seeded random schedule per behaviour (beyond what TLC sampled)
@@ -297,6 +304,15 @@ def check_c09(tier):
             continue
         real = proj_real(r["post"][0], rendered)
         outcomes = [p for _, p in seq[k]]
+        if len(r["post"]) > 1 and isinstance(r["post"][-1], dict) and "ubf" in r["post"][-1]:
+            snap2 = r["post"][-1]
+            a = sorted(json.dumps({kk: vv for kk, vv in x.items() if kk != "key_file"}, sort_keys=True)
+                       for lst in snap2["ubf"].values() for x in lst)
+            b = sorted(json.dumps(x, sort_keys=True) for lst in snap2["usages"].values() for x in lst)
+            if a != b:
+                V.violation(dict(ex, usages=snap2["usages"], usage_by_fixture=snap2["ubf"]),
+                            "after concurrent analyses and one further sequential re-analysis of each file the reverse usage index does not mirror the usages")
+                continue
         if real not in outcomes:
             V.violation(dict(ex, result=real, sequential_outcomes=[{"order": o, "result": p} for o, p in seq[k]]),
                         "the index after concurrent analyses equals no sequential execution of them")
